@@ -18,6 +18,9 @@ Lemma upd_eq x a v : upd x a v a = v. Proof. unfold upd. now rewrite Nat.eqb_ref
 Lemma upd_neq x a v b : b <> a -> upd x a v b = x b.
 Proof. intros N. unfold upd. destruct (Nat.eqb_spec b a); congruence. Qed.
 
+(* t depends only on the attributes in S *)
+Definition dep_on (K : Type) (S : list nat) (t : asg -> K) := forall x y, (forall a, In a S -> x a = y a) -> t x = t y.
+
 Definition memb (a : nat) (l : list nat) : bool := existsb (Nat.eqb a) l.
 Lemma memb_In a l : memb a l = true <-> In a l.
 Proof. unfold memb. rewrite existsb_exists. split. intros [x [H E]]. apply Nat.eqb_eq in E. now subst.
